@@ -138,6 +138,11 @@ SeqOKNext(C, t, hts) ==
       [] sq.kind = "time" -> MTPat(C, Max(ch - 1, 0)) + 512 * sq.v - 1 < MTPat(C, Height(C))
       [] OTHER -> TRUE
 
+\* script classes of outputs, as the harness spends them: "key" (base coins, signed), "true" (anyone can spend), "fail" (always
+\* false), "cltv" (CHECKLOCKTIMEVERIFY beyond the spender's nLockTime) fail under the consensus flags; "nopx" (NOP4) is valid under
+\* the consensus flags and rejected by the standard flags. What the standard flags accept, the consensus flags accept (C28).
+ConsensusInvalid == {"fail", "cltv"}
+PolicyInvalid == ConsensusInvalid \cup {"nopx"}
 \* ------------------------------------------------------------------ connecting a block on top of chain C with view V
 RECURSIVE ConnTxs(_, _, _)
 ConnTxs(C, txs, V) ==
@@ -150,7 +155,7 @@ ConnTxs(C, txs, V) ==
                THEN fail("bad-txns-premature-spend-of-coinbase")
           ELSE IF SumS([j \in 1..NIn(t) |-> V[InOp(t, j)].v]) < OutVal(t) THEN fail("bad-txns-in-belowout")
           ELSE IF ~SeqOKNext(C, t, [j \in 1..NIn(t) |-> V[InOp(t, j)].h]) THEN fail("bad-txns-nonfinal")
-          ELSE IF \E j \in 1..NIn(t) : ClsOf(InOp(t, j)) = "fail" THEN fail("script-failed")
+          ELSE IF \E j \in 1..NIn(t) : ClsOf(InOp(t, j)) \in ConsensusInvalid THEN fail("script-failed")
           ELSE LET newc == [o \in OutsOf(t) |-> Coin(TXU[t].outs[o[2]].v, h, FALSE)]
                IN ConnTxs(C, Tail(txs), Without(V, InsSet(t)) @@ newc)
 \* CheckBlock (duplicate inputs), ContextualCheckBlock (finality), BIP30, ConnectBlock. Coinbases claim nothing.
@@ -268,7 +273,7 @@ NoDbg == [m3 |-> 0, m4 |-> 0, nc |-> 0]
 Res(ok, why, ev, dbg) == [ok |-> ok, why |-> why, evict |-> ev, pure |-> TRUE, dbg |-> dbg]
 Rej(why) == Res(FALSE, why, {}, NoDbg)
 NoneRes == Res(TRUE, "none", {}, NoDbg)
-ScriptsOK(t) == \A j \in 1..NIn(t) : ClsOf(InOp(t, j)) \notin {"fail", "nopx"}     \* STANDARD flags: also no upgradable NOPs
+ScriptsOK(t) == \A j \in 1..NIn(t) : ClsOf(InOp(t, j)) \notin PolicyInvalid
 Verdict(P, U, C, D, t, bypass) ==
   \* ---- PreChecks
   IF DupInputs(t) THEN Rej("bad-txns-inputs-duplicate")
@@ -448,7 +453,6 @@ ReplacementsSound ==
 TestAcceptPure == [][lastAct'[1] = "test" => UNCHANGED state]_vars
 \* Submit's answer from the same state; only the post-acceptance LimitMempoolSize step can turn an accepted
 \* transaction into "mempool full" (here: an expired ancestor takes it along)
-SubmitOk(t) == Verdict(pool, utxo, chain, delta, t, FALSE)
 TestAcceptFaithful ==
   [][lastAct'[1] = "submit" =>
        LET tv == TestVerdict(lastAct'[2]) IN
